@@ -253,6 +253,8 @@ def conditions(macro, form, shape, obs, exp):
             cs.append((ok_struct and MULTISET_EQ(got, allexp), f'{name}: node of row {i} should be incident to {show(allexp)}, has {show(got)}', 'edges'))
             # own-row edges appear in listed order (as a subsequence of iter())
             cs.append((subseq(got, [list(e) for e in x['own']]), f'{name}: edges of row {i} {show(x["own"])} do not appear in listed order in {show(got)}', 'edge-order'))
+            # ... and so do the edges that other rows list towards this node (textual order of the invocation)
+            cs.append((subseq(got, [list(e) for e in x['incoming']]), f'{name}: edges listed towards the node of row {i} {show(x["incoming"])} do not appear in listed order in {show(got)}', 'edge-order'))
     return cs
 
 
